@@ -1,5 +1,6 @@
 import LentilVerif.Lemmas.Propagate
 import LentilVerif.Lemmas.Canvas
+import LentilVerif.Lemmas.FftBridge
 import LentilVerif.Props.C01
 import LentilVerif.Gen.PlaneType
 /-! # C02 — far-field propagation puts the Fraunhofer field on the right output samples
@@ -30,7 +31,7 @@ theorem propagateField_sample (hcast : ∀ n : Int, (RealLike.ofInt n : R) = (n 
   · -- a field is produced; its extent is the intersection extent
     unfold propagateField
     rw [dftWindow_some oe P0 P1 t.fix0 t.fix1 hoe hP hi]
-    simp only [embO, Fld.emb, Fld.extent, dft2_shape0, dft2_shape1]
+    simp only [embO, Fld.emb, Fld.extent, dft2_shape0, dft2_shape1, Gen.dftCallShape, Gen.dftCallShift, Gen.dftCallOffset, Gen.dftFieldOffset]
     rw [inter_roundtrip _ _ hi]
     unfold embAt
     by_cases hin : (intersectionExtent oe (propExtent P0 P1 t.fix0 t.fix1)).inb r c = true
@@ -109,7 +110,7 @@ theorem propagateField_extent (t : TField K R) (αr αc : R) (oe : Extent) (P0 P
     rw [dftWindow_some oe P0 P1 t.fix0 t.fix1 hoe hP hi] at hg
     simp only [Option.some.injEq] at hg
     subst hg
-    simp only [Fld.extent, dft2_shape0, dft2_shape1]
+    simp only [Fld.extent, dft2_shape0, dft2_shape1, Gen.dftCallShape, Gen.dftFieldOffset]
     exact inter_roundtrip _ _ hi
   · have hn : intersect oe (propExtent P0 P1 t.fix0 t.fix1) = false := by
       cases h : intersect oe (propExtent P0 P1 t.fix0 t.fix1) <;> simp_all
@@ -237,6 +238,51 @@ theorem propagateDft_sample_fraunhofer (fs : List (TField ℂ ℝ)) (dx0 dx1 du0
   split
   · rw [fraunhoferAt_eq_sum]; rfl
   · rfl
+
+/-- **The Fraunhofer sum of the input-plane field.** When all fields of the wavefront carry the same shift (no tilt, a
+common Tilt plane, `Wavefront(tilt=…)`), the per-field sums merge: sample `[i][j]` of the output is the unitary `dft2` sum of
+`Wavefront.field` of the INPUT wavefront (all its fields inserted into its `W0 x W1` array), evaluated at the sample's
+global coordinate relative to the shifted centre, inside the common window — and zero outside. (Fields on the canvas,
+non-empty; additivity of the transform in the embedded field, C03.) -/
+theorem propagateDft_common_shift {K R : Type} [CommRing R] [RealLike R] [CommRing K] [CxLike K R]
+    (hcast : ∀ n : Int, (RealLike.ofInt n : R) = (n : R))
+    (fs : List (Fld K)) (fix0 fix1 : Int) (sub0 sub1 : R) (W0 W1 : Int) (hWp : 0 < W0 ∧ 0 < W1)
+    (hfit : ∀ f ∈ fs, f.within W0 W1) (hpos : ∀ f ∈ fs, 0 < f.arr.s0 ∧ 0 < f.arr.s1)
+    (αr αc : R) (S0 S1 P0 P1 os : Int) (mask : Option Extent)
+    (hoe : (outExtent (S0 * os) (S1 * os) mask).rmin ≤ (outExtent (S0 * os) (S1 * os) mask).rmax ∧
+           (outExtent (S0 * os) (S1 * os) mask).cmin ≤ (outExtent (S0 * os) (S1 * os) mask).cmax)
+    (hP : 0 < P0 * os ∧ 0 < P1 * os) (i j : Int) (hi : 0 ≤ i ∧ i < S0 * os) (hj : 0 ≤ j ∧ j < S1 * os) :
+    (wavefrontField 1 (propagateDft (fs.map fun f => (⟨f, fix0, fix1, sub0, sub1⟩ : TField K R)) αr αc S0 S1 P0 P1 os mask)
+        (S0 * os) (S1 * os)).get i j =
+      if (outExtent (S0 * os) (S1 * os) mask).inb (i - S0 * os / 2) (j - S1 * os / 2) &&
+         (propExtent (P0 * os) (P1 * os) fix0 fix1).inb (i - S0 * os / 2) (j - S1 * os / 2)
+      then fraunhoferAt ⟨wavefrontField 1 fs W0 W1, 0, 0⟩ αr αc (RealLike.ofInt (i - S0 * os / 2 - fix0) - sub0)
+             (RealLike.ofInt (j - S1 * os / 2 - fix1) - sub1)
+      else 0 := by
+  rw [propagateDft_sample hcast _ αr αc S0 S1 P0 P1 os mask hoe hP i j hi hj, List.map_map]
+  by_cases hw : ((outExtent (S0 * os) (S1 * os) mask).inb (i - S0 * os / 2) (j - S1 * os / 2) &&
+      (propExtent (P0 * os) (P1 * os) fix0 fix1).inb (i - S0 * os / 2) (j - S1 * os / 2)) = true
+  · have hterm : ∀ f ∈ fs, ((fun t : TField K R =>
+          if ((outExtent (S0 * os) (S1 * os) mask).inb (i - S0 * os / 2) (j - S1 * os / 2) &&
+              (propExtent (P0 * os) (P1 * os) t.fix0 t.fix1).inb (i - S0 * os / 2) (j - S1 * os / 2)) = true
+          then fraunhoferAt t.fld αr αc (RealLike.ofInt (i - S0 * os / 2 - t.fix0) - t.sub0) (RealLike.ofInt (j - S1 * os / 2 - t.fix1) - t.sub1)
+          else 0) ∘ fun f => (⟨f, fix0, fix1, sub0, sub1⟩ : TField K R)) f =
+        (dft2 f.arr αr αc 1 1 (-(RealLike.ofInt (i - S0 * os / 2 - fix0) - sub0)) (-(RealLike.ofInt (j - S1 * os / 2 - fix1) - sub1))
+          f.o0 f.o1 true).get 0 0 := by
+      intro f _; simp only [Function.comp, hw, if_true]; rfl
+    rw [List.map_congr_left hterm, hw]
+    simp only [if_true]
+    unfold fraunhoferAt
+    exact (dft2_canvas fs W0 W1 hWp hfit hpos αr αc 1 1 _ _ true 0 0).symm
+  · have hterm : ∀ f ∈ fs, ((fun t : TField K R =>
+          if ((outExtent (S0 * os) (S1 * os) mask).inb (i - S0 * os / 2) (j - S1 * os / 2) &&
+              (propExtent (P0 * os) (P1 * os) t.fix0 t.fix1).inb (i - S0 * os / 2) (j - S1 * os / 2)) = true
+          then fraunhoferAt t.fld αr αc (RealLike.ofInt (i - S0 * os / 2 - t.fix0) - t.sub0) (RealLike.ofInt (j - S1 * os / 2 - t.fix1) - t.sub1)
+          else 0) ∘ fun f => (⟨f, fix0, fix1, sub0, sub1⟩ : TField K R)) f = 0 := by
+      intro f _; simp only [Function.comp, hw, Bool.false_eq_true, if_false]
+    rw [List.map_congr_left hterm]
+    simp only [hw, Bool.false_eq_true, if_false]
+    simp
 
 /-! ## Non-vacuity: the hypotheses are satisfiable by concrete, non-trivial instances -/
 section
